@@ -60,6 +60,10 @@ CHECKS = {
    text="parse_file is verified for files of ANY number of lines (one parse_line call per non-blank line, in order, verbatim text, 1-based number + start offset); parse_line's classification is verified over all combinations of grammar outcomes (exactly one of comment/label/directive/instruction populated, in that priority; line and number verbatim; instruction failure -> ValueError); operand post-processing (AArch64: immediate offset, register index with shift n -> scale 2**n only for lsl/uxtw/uxtb/sxtw, sp/zr get prefix x, pre-index '!', post-index immediate) is verified per dictionary shape with symbolic numeric literals. The pyparsing grammar itself is library-interpreted and outside the subset: 'every rendering is accepted and structured' is covered by a bounded render->parse round trip on the real parse_line/parse_file (every operand form x position x layout; files with interleaved non-instruction lines), exhaustive within the stated family.",
    note="A: pyparsing results have the grammar's dict shapes; int(s, 0) by its model (differentially tested against CPython); grammar acceptance bounded.",
    tech=TECH + "; bounded render-parse round trip for the grammar"),
+ "C07": dict(cat="proof", ref="DESIGN.md section 4 C07",
+   text="All matcher predicates (_check_operands, _check_x86_operands, _check_AArch64_operands, _is_x86_reg_type, _is_AArch64_reg_type, _is_x86_mem_type, _is_AArch64_mem_type, with ParserX86ATT.is_vector_register) are symbolically executed for every entry-operand shape x parsed-operand shape with symbolic names, scales and values and proved equal to an independent reference matcher written from the statement (contracts/spec_matcher.py, itself executed symbolically and natively); _match_operands is verified for operand lists of unbounded length; get_instruction (upper-cased key, first match in list order) for <= 3 entries. The data half - every entry of the shipped models is found by the instruction synthesised from its own pattern and the first reference-accepted entry is returned - is a bounded exhaustive run over the model files.",
+   note="Spec decisions excluded: k0-7 vs gpr, AArch64 lanes, operand without arrangement vs entry with one; entry vocabulary = that of the shipped files. Known findings: 'mm0' register class in ivb/snb/icl (unreachable entries).",
+   tech=TECH + " against a symbolically executed reference; bounded exhaustive data sweep"),
 }
 NA = {
  "C17": "quantifies over file-system histories, crash points of cache writes and process races; no function contract decides it (needs fault enumeration / a file-system model)",
